@@ -15,7 +15,7 @@ RULE = (
     "from {1/4, 1/3, 1/2, 1, 2, 3, 5, 8} with either sign, 1..6 slits obtained by cutting the circle "
     "into alternating slit/gap arcs (widths and gaps >= 1e-3 rad, optionally started anywhere so that a "
     "slit spans top-dead-centre with end > 2 pi), a permutation of the slit order, deg or rad per "
-    "angle (slit edges optionally as whole degrees in an int64 array), beam position in [-2 pi, 2 pi], phase over +-3 turns and 1..4 pulses. Oracle: a "
+    "angle (slit edges optionally as whole degrees in an int64 array), beam position in [-2 pi, 2 pi], phase over +-3 turns and 1..6 pulses (half of the expansions at the reference orientation, where every opening inside the npulses pulse periods must be reported). Oracle: a "
     "rotating-disk simulator written from the module documentation. Each reported pair must be "
     "open < close, open inside, closed just outside, of duration width/|omega|, and the sorted "
     "reported openings must equal the simulator's openings inside the covered span (no duplicate, "
